@@ -89,3 +89,33 @@ Example tr_dump :
   strip_tree strip (fst (build tr_top [])) (fst (build ex_decls ex_links)) sFit tr_cfg
   = VMap [(sS, VInt 3); (sFit, VMap [(sA, VInt 5); (sB, VInt 7)])].
 Proof. vm_compute. reflexivity. Qed.
+
+(* ------------------------------------------------------------------ finding subcommand-env-defaults-stale-target
+   subcommand "fit": --a int=0, --y Any="q"; link_arguments("y", "a"). `fit --y=9` parses to a == 9, the dump holds
+   fit: {y: 9}; loading that dump through the top parser (default_env) merges it over the subcommand's defaults WITH
+   the link applied to them (a == "q"), and the leaf check of a rejects "q". *)
+Definition st_decls : list decl :=
+  [int_arg [sA] (VInt 0);
+   {| d_key := [sY]; d_kind := KPlain TAny; d_default := VStr [113]%N; d_required := false; d_alias := false |}].
+Definition st_links : list link := [{| l_src := [[sY]]; l_tgt := [sA]; l_fn := None |}].
+Definition st_pre : val := VMap [(sS, VInt 3); (sFit, VMap [(sY, VInt 9); (sA, VInt 9)])].
+
+Lemma stale_refuted :
+  exists ds ls ds' ls' n pre cfg sub,
+    let p := fst (build ds ls) in
+    let q := fst (build ds' ls') in
+    finish_tree wfn [] p q n pre = Ok cfg /\
+    overlap_free (map al_link (p_links q)) = true /\
+    get (strip_tree strip p q n cfg) [n] = Some sub /\
+    stale_default_target wfn [] q = true /\
+    reload_sub wfn false q sub = Err EOther.
+Proof.
+  exists tr_top, [], st_decls, st_links, sFit, st_pre, st_pre, (VMap [(sY, VInt 9)]).
+  repeat split; vm_compute; reflexivity.
+Qed.
+
+(* with the defaults/environment stage run under skip_apply_links the same dump loads, and the link recomputes a *)
+Example st_fixed_reload :
+  reload_sub wfn true (fst (build st_decls st_links)) (VMap [(sY, VInt 9)]) = Ok (VMap [(sY, VInt 9)]) /\
+  apply_links wfn (VMap [(sY, VInt 9)]) (p_links (fst (build st_decls st_links))) = Ok (VMap [(sY, VInt 9); (sA, VInt 9)]).
+Proof. split; vm_compute; reflexivity. Qed.
